@@ -37,6 +37,7 @@ const pmtPID = 0x1000
 // muxProfile selects the operation mix.
 type muxProfile struct {
 	invalid     bool // invalid arguments: unknown PID, duplicate Add, invalid PCR PID
+	lowPIDs     bool // explicit PIDs may lie in 0x01..0x1f (only where the output is not demuxed: the Demuxer reads PSI/SI there)
 	writePacket bool // WritePacket with arbitrary (also oversize) packets
 	bigAF       bool // adaptation fields that leave no room for the PES header / exceed a packet
 	bigPMT      bool // descriptors that can push the PMT over one packet
@@ -66,9 +67,9 @@ type muxOp struct {
 	af       *ref.AF
 	strayOpt bool // hand an optional header struct to the Muxer although the stream id (0xBE/0xBF) has none
 	churn    int  // opChurn: number of add/remove cycles
-	staleLen bool // the adaptation field struct carries a stale value in its derived Length field (as one received from the Demuxer and edited would)
+	staleLen bool // the adaptation field struct carries a stale value in its derived Length field and values in the fields whose flags are off (as one received from the Demuxer and edited would)
 	reuseMD  bool // hand over the MuxerData struct of an earlier WriteData on the same PID (refilled), as a caller that keeps one per stream would
-	reuseAF  bool // hand over the adaptation field struct (same pointer, same content) of the previous successful WriteData that had one
+	reuseAF  bool // hand over the adaptation field struct (same pointer) of the previous WriteData that had one: same content after a success, new content after a rejection
 	// Packet
 	pkt *astits.Packet
 }
@@ -176,7 +177,10 @@ func drawMuxOp(t *rapid.T, prof muxProfile) muxOp {
 	case opAdd:
 		op.auto = gen.Chance(t, 40, "auto")
 		if !op.auto {
-			if gen.Chance(t, 75, "pool") {
+			if prof.lowPIDs && gen.Chance(t, 20, "lowpid") {
+				// explicit PIDs below the range of the automatic ones, inside the PIDs reserved for PSI/SI
+				op.pid = []uint16{0x01, 0x10, 0x11, 0x1f}[gen.Uniform(t, 4, "lowpidv")]
+			} else if gen.Chance(t, 75, "pool") {
 				op.pid = explicitPIDPool[gen.Uniform(t, len(explicitPIDPool), "pidpool")]
 			} else {
 				op.pid = uint16(rapid.IntRange(0x20, 0x1ffe).Draw(t, "pid"))
@@ -302,7 +306,15 @@ func genMuxHistory(t *rapid.T, prof muxProfile) (period int, setPeriod bool, ops
 		// most histories start from a usable configuration (one stream that is the PCR PID), otherwise the bulk of the
 		// WriteData calls would only exercise the error paths
 		add := muxOp{kind: opAdd, auto: gen.Bool(t, "setup_auto"), pid: explicitPIDPool[gen.Uniform(t, len(explicitPIDPool), "setup_pid")], stype: drawStreamType(t)}
-		ops = append([]muxOp{add, {kind: opSetPCR, sel: 0}}, ops...)
+		first := []muxOp{add, {kind: opSetPCR, sel: 0}}
+		if prof.bigAF && gen.Chance(t, 15, "setup_bigaf_first") {
+			// the very first unit of the stream comes with an adaptation field that leaves no room for the PES header
+			pts := uint64(rapid.IntRange(0, 1<<20).Draw(t, "setup_pts"))
+			first = append(first, muxOp{kind: opData, sel: 0,
+				pes: &ref.PES{StreamID: 0xe0, Length: -1, Opt: &ref.PESOpt{PTS: &pts}, Payload: gen.Bytes(t, rapid.IntRange(1, 300).Draw(t, "setup_pl"), "setup_plb")},
+				af:  &ref.AF{HasPrivate: true, Private: gen.Bytes(t, rapid.IntRange(168, 181).Draw(t, "setup_pd"), "setup_pdb")}})
+		}
+		ops = append(first, ops...)
 		if gen.Chance(t, 5, "setup_churn") {
 			// a long-lived Muxer: so many automatic PIDs were handed out (and given back) that the next ones are around
 			// the PMT's own PID 0x1000
@@ -492,6 +504,7 @@ func runMuxHistoryUnguarded(period int, setPeriod bool, ops []muxOp, w *writerSp
 	predAuto := uint16(0x100)
 	keptMD := map[uint16]*astits.MuxerData{}
 	var lastAF *astits.PacketAdaptationField
+	lastAFFailed := false
 	var gone []uint16 // PIDs removed so far (a later Add may have brought one back: target() then reports it as known)
 	var lastAFModel *ref.AF
 	for i := range ops {
@@ -582,7 +595,13 @@ func runMuxHistoryUnguarded(period int, setPeriod bool, ops []muxOp, w *writerSp
 			st.pid, st.knownPID = pid, known
 			af := op.af
 			reuse := op.reuseAF && lastAF != nil
-			if reuse {
+			if reuse && lastAFFailed && af != nil {
+				// the previous call with this struct was rejected: the caller puts other content into the same struct (it knows
+				// nothing of the bookkeeping the Muxer may have left in StuffingLength) and tries again
+				left := lastAF.StuffingLength
+				*lastAF = *conv.AFStruct(af, false)
+				lastAF.StuffingLength = left
+			} else if reuse {
 				// a caller that keeps one adaptation field struct and hands it to successive calls
 				af = lastAFModel
 			}
@@ -606,6 +625,7 @@ func runMuxHistoryUnguarded(period int, setPeriod bool, ops []muxOp, w *writerSp
 				d.AdaptationField = conv.AFStruct(af, false)
 				if op.staleLen && !d.AdaptationField.IsOneByteStuffing {
 					d.AdaptationField.Length = 1 + (7*len(op.pes.Payload)+af.Size())%183
+					conv.StrayAF(d.AdaptationField)
 				}
 				if reuse {
 					d.AdaptationField = lastAF
@@ -626,9 +646,9 @@ func runMuxHistoryUnguarded(period int, setPeriod bool, ops []muxOp, w *writerSp
 				st.stype = cfg.streams[i].stype
 			}
 			st.n, st.err = m.WriteData(d)
-			lastAF, lastAFModel = nil, nil
-			if d.AdaptationField != nil && st.err == nil {
-				lastAF, lastAFModel = d.AdaptationField, af
+			lastAF, lastAFModel, lastAFFailed = nil, nil, false
+			if d.AdaptationField != nil && (st.err == nil || known) {
+				lastAF, lastAFModel, lastAFFailed = d.AdaptationField, af, st.err != nil
 			}
 			st.desc = fmt.Sprintf("WriteData(pid=%#x sid=%#x hdr=%d payload=%d af=%s)", pid, op.pes.StreamID, op.pes.HeaderSize(), len(op.pes.Payload), afDesc(af))
 		case opChurn:
